@@ -4,7 +4,37 @@ open Conv
 
 type input = { verbose : bool; skipws : bool; skipnl : bool; bytes : string }
 
+(* optional: take item sets and tables from a dump of the real code (argument "--tables <real.out>") instead of LRGen.gen *)
+let real_tables : (string, (item list list * entry list list) option) Hashtbl.t = Hashtbl.create 64
+let load_tables path =
+  let ic = open_in_bin path in
+  let cur = ref "" and sts = ref [] and rows = ref [] and ok = ref false in
+  let flush () = if !cur <> "" then Hashtbl.replace real_tables !cur (if !ok then Some (List.rev !sts, List.rev !rows) else None) in
+  (try while true do
+    let l = input_line ic in
+    let n = String.length l in
+    if n > 5 && String.sub l 0 5 = "CASE " then (flush (); cur := String.sub l 5 (n - 5); sts := []; rows := []; ok := false)
+    else if l = "GEN ok" then ok := true
+    else if n > 1 && (l.[0] = 'S' || l.[0] = 'R') && (match String.index_opt l ':' with Some i -> i > 1 && (try ignore (int_of_string (String.sub l 1 (i - 1))); true with _ -> false) | None -> false) && not (n > 6 && String.sub l 0 6 = "STATES") then begin
+      let i = String.index l ':' in
+      let body = String.sub l (i + 1) (n - i - 1) in
+      let toks = List.filter (fun x -> x <> "") (String.split_on_char ' ' body) in
+      if l.[0] = 'S' then
+        sts := List.map (fun t -> match String.split_on_char '.' t with
+                 | [a; b; c] -> { it_r = nat_of_int (int_of_string a); it_d = nat_of_int (int_of_string b); it_t = nat_of_int (int_of_string c) }
+                 | _ -> failwith "bad item") toks :: !sts
+      else
+        rows := List.map (fun t -> match String.split_on_char ',' t with
+                 | [k; a; f] -> let a = int_of_string a in
+                     { e_kind = (match int_of_string k with 0 -> KError | 1 -> KSuccess | 2 -> KShift | 3 -> KShiftErr | 4 -> KReduce | _ -> KRR);
+                       e_arg = (if a < 0 then None else Some (nat_of_int a)); e_sr = (f = "1") }
+                 | _ -> failwith "bad entry") toks :: !rows
+    end
+  done with End_of_file -> flush ()); close_in ic
+
 let () =
+  let use_real = Array.length Sys.argv > 3 && Sys.argv.(2) = "--tables" in
+  if use_real then load_tables Sys.argv.(3);
   let ic = open_in Sys.argv.(1) in
   let next = make_reader ic in
   let tok () = match next () with Some t -> t | None -> raise End_of_file in
@@ -34,10 +64,16 @@ let () =
     let nm = { tn; ntn } in
     Printf.printf "CASE %s\n" !id;
     let limits = if !lim = (0, 0) then default_limits g else { state_cap = nat_of_int (fst !lim); sit_cap = nat_of_int (snd !lim) } in
-    (match gen_with g limits with
+    let generated =
+      if use_real then
+        (match Hashtbl.find_opt real_tables !id with
+         | Some (Some (sl, tb)) -> Inl (List.map (fun its -> { st_all = its; st_kernel = [] }) sl, tb)
+         | _ -> Inr GenOutOfFuel)
+      else gen_with g limits in
+    (match generated with
      | Inr StateCapExceeded -> print_string "GEN throw State count exceeds the cap\n"
      | Inr VectorCapExceeded -> print_string "GEN throw cvector capacity exceeded\n"
-     | Inr GenOutOfFuel -> print_string "GEN fuel\n"
+     | Inr GenOutOfFuel -> print_string (if use_real then "GEN not-ok-in-real-dump\n" else "GEN fuel\n")
      | Inl (sts, tb) ->
          print_string "GEN ok\n";
          Printf.printf "STATES %d\n" (List.length sts);
@@ -48,7 +84,21 @@ let () =
            Printf.printf "R%d:" i;
            List.iter (fun (e : entry) -> Printf.printf " %d,%d,%d" (kind_code e.e_kind) (opt_int e.e_arg) (if e.e_sr then 1 else 0)) (List.nth tb i);
            print_string "\n") sts;
-         if Array.length Sys.argv > 2 then Printf.printf "VALID %b SOUND %b NOERR %b\n" (validate g (List.map (fun (s : lrstate) -> s.st_all) sts) tb) (validate_sound g (List.map (fun (s : lrstate) -> s.st_all) sts) tb) (no_error_symbol g tb);
+         (* cell logic re-run on the REAL item sets (C05/C11 tie that does not depend on the closure/FIRST mirror) *)
+         if use_real then List.iteri (fun i (st : lrstate) ->
+           Printf.printf "RC%d:" i;
+           let items = sort_items g st.st_all in
+           for c = 0 to tc + ntc - 1 do
+             let its = bucket g items (nat_of_int c) in
+             if its = [] then print_string " -" else begin
+               let sc = scan_cell g its scan0 in
+               let root_complete = List.exists (fun (it : item) -> is_complete g it && int_of_nat (List.nth g.rule_infos (int_of_nat it.it_r)).ri_r = rc - 1) its in
+               let k = match sc.sc_kind with KShift when c = ntc + tc - 1 -> 3 | k -> kind_code k in
+               let sr = match sc.sc_kind with KReduce -> sc.sc_has_shift | _ -> sc.sc_sr in
+               Printf.printf " %d,%d,%d,%d" k (match sc.sc_kind with KReduce -> opt_int sc.sc_red | _ -> -1) (if sr then 1 else 0) (if root_complete then 1 else 0)
+             end
+           done; print_string "\n") sts;
+         if Array.length Sys.argv = 3 then Printf.printf "VALID %b SOUND %b NOERR %b\n" (validate g (List.map (fun (s : lrstate) -> s.st_all) sts) tb) (validate_sound g (List.map (fun (s : lrstate) -> s.st_all) sts) tb) (no_error_symbol g tb);
          let d = diag_text nm g sts tb in
          Printf.printf "DIAG %d\n%s\nENDDIAG\n" (String.length d) d;
          if List.exists (List.exists (fun (e : entry) -> e.e_kind = KRR)) tb then print_string "INPUTS skipped-rr\n" else
